@@ -81,12 +81,12 @@ def base_env(home, extra=None):
     return env
 
 
-def rebench(argv, cwd, env=None, timeout=180, home=None):
-    """One CLI session.  Returns (exit status, stdout, stderr)."""
+def rebench(argv, cwd, env=None, timeout=180, home=None, stdin_text=None):
+    """One CLI session.  Returns (exit status, stdout, stderr).  stdin_text: what ReBench's own standard input holds."""
     env = env or base_env(home or cwd)
     p = subprocess.run([PY, "-m", "rebench.rebench"] + list(argv), cwd=cwd, env=env,
                        stdout=subprocess.PIPE, stderr=subprocess.PIPE, text=True, timeout=timeout,
-                       errors="replace")
+                       errors="replace", **({"input": stdin_text} if stdin_text is not None else {}))
     return p.returncode, p.stdout, p.stderr
 
 
